@@ -385,11 +385,31 @@ def polygon2d(rng, kind=None):
     raise RuntimeError("could not generate polygon of kind %s" % kind)
 
 
+def near_axis_rotation(rng):
+    """A proper rotation that is ALMOST, but not exactly, a symmetry of the coordinate axes: a tilt by an angle
+    log-uniform in [1e-7, 3e-2] rad (6e-6 .. 1.7 degrees) about a random axis, composed half of the time with a flip
+    (normal near -z) and a quarter turn about z.  Near-flat planes are where `isclose`-style shortcuts and
+    ill-conditioned frame constructions show."""
+    ang = float(np.exp(rng.uniform(np.log(1e-7), np.log(3e-2))))
+    ax = rng.normal(size=3)
+    ax[2] *= 0.1
+    ax /= np.linalg.norm(ax)
+    K = np.array([[0, -ax[2], ax[1]], [ax[2], 0, -ax[0]], [-ax[1], ax[0], 0]])
+    R = np.eye(3) + np.sin(ang) * K + (1 - np.cos(ang)) * (K @ K)
+    if rng.random() < 0.5:
+        R = R @ np.diag([1.0, -1.0, -1.0])
+    if rng.random() < 0.5:
+        R = R @ np.array([[0.0, -1.0, 0.0], [1.0, 0.0, 0.0], [0.0, 0.0, 1.0]])
+    return R
+
+
 def embed_polygon(rng, p2, plane="random", offset_diams=None, scale=1.0):
     """Embed a 2-D polygon in 3-space. Returns (verts3 (n,3), frame dict with origin o, u, w, n)."""
     p2 = np.asarray(p2, dtype=float) * scale
     if plane == "xy":
         Rm = np.eye(3)
+    elif plane == "neartilt":
+        Rm = near_axis_rotation(rng)
     else:
         Rm = random_rotation(rng)
     u, w, n = Rm[:, 0], Rm[:, 1], Rm[:, 2]
